@@ -13,6 +13,8 @@ import (
 	basetypes "github.com/regen-network/regen-ledger/x/ecocredit/v3/base/types/v1"
 	baskettypes "github.com/regen-network/regen-ledger/x/ecocredit/v3/basket/types/v1"
 	markettypes "github.com/regen-network/regen-ledger/x/ecocredit/v3/marketplace/types/v1"
+
+	"verif/snap"
 )
 
 // Profile extras used by generators.
@@ -501,10 +503,27 @@ func (w *World) speculate() {
 	saved := w.S
 	st := TStep{Kind: "spec"}
 	okN := 0
+	// one speculative step in four is a chain of creations (what a multi-message transaction that sets something
+	// up and then fails looks like): the entities exist only inside the discarded branch
+	var creations []string
+	if w.intn("spec.create", 4) == 3 {
+		for _, k := range []string{"addCreditType", "createClass", "createProject", "createBatch", "basketCreate", "put", "bridgeReceive", "sell", "defineResolver", "registerResolver", "anchor", "attest", "addBridgeChain", "addDenom", "addCreator"} {
+			if _, ok := Gens[k]; ok && w.Profile.Weights[k] > 0 {
+				creations = append(creations, k)
+			}
+		}
+		if len(creations) > 0 {
+			n = 2 + w.intn("spec.create.n", 4)
+		}
+	}
+	branch := saved
 	w.C.Sandbox(func() {
+		defer func() { branch = w.S }()
 		for i := 0; i < n; i++ {
 			var kind string
-			if w.chance("spec.byweight", 50) {
+			if len(creations) > 0 {
+				kind = creations[w.intn("spec.create.kind", len(creations))]
+			} else if w.chance("spec.byweight", 50) {
 				kind = w.Profile.drawKind(w.T)
 				if _, ok := Gens[kind]; !ok {
 					kind = kinds[w.intn("spec.kind", len(kinds))]
@@ -544,9 +563,68 @@ func (w *World) speculate() {
 		}
 	})
 	w.S = saved
+	w.notePhantoms(saved, branch)
 	w.Trace.Steps = append(w.Trace.Steps, st)
 	w.addSig("spec", true)
 	if okN > 0 {
 		w.Flags["speculative-success-discarded"] = true
+	}
+}
+
+// notePhantoms records the identifiers that exist in the discarded branch but not in the state it branched from.
+func (w *World) notePhantoms(saved, branch *snap.Snap) {
+	if branch == nil || branch == saved {
+		return
+	}
+	add := func(pool *[]string, id string) {
+		for _, x := range *pool {
+			if x == id {
+				return
+			}
+		}
+		if len(*pool) < 8 {
+			*pool = append(*pool, id)
+		}
+	}
+	have := map[string]bool{}
+	for _, x := range saved.CreditTypes {
+		have["t/"+x.Abbreviation] = true
+	}
+	for _, x := range saved.Classes {
+		have["c/"+x.Id] = true
+	}
+	for _, x := range saved.Projects {
+		have["p/"+x.Id] = true
+	}
+	for _, x := range saved.Batches {
+		have["b/"+x.Denom] = true
+	}
+	for _, x := range saved.Baskets {
+		have["k/"+x.BasketDenom] = true
+	}
+	for _, x := range branch.CreditTypes {
+		if !have["t/"+x.Abbreviation] {
+			add(&w.phCreditTypes, x.Abbreviation)
+		}
+	}
+	for _, x := range branch.Classes {
+		if !have["c/"+x.Id] {
+			add(&w.phClasses, x.Id)
+		}
+	}
+	for _, x := range branch.Projects {
+		if !have["p/"+x.Id] {
+			add(&w.phProjects, x.Id)
+		}
+	}
+	for _, x := range branch.Batches {
+		if !have["b/"+x.Denom] {
+			add(&w.phBatches, x.Denom)
+		}
+	}
+	for _, x := range branch.Baskets {
+		if !have["k/"+x.BasketDenom] {
+			add(&w.phBaskets, x.BasketDenom)
+		}
 	}
 }
